@@ -1720,6 +1720,13 @@ class CEngine:
                 amap[nm] = v
             ex.params = amap
             ex.entry_mems = {rid: r.mem for rid, r in ex.regions.items()}
+            # a parameter whose address is taken lives in memory (a local object initialised with the argument)
+            for p in params:
+                if p["id"] in addr_taken and isinstance(amap[p["name"]], (Val, FVal)):
+                    ct = self.types.parse(p["type"])
+                    r = ex.new_region(p["name"], str(ct.size))
+                    ex.vars[p["id"]] = ("region", r.name, ct)
+                    ex.store(PVal(CT("ptr", elem=ct), r.name, "0"), ct, amap[p["name"]])
             cx = CallCx(ex, amap, dict(ex.entry_mems))
             for r in c.requires(cx):
                 ex.assume(r)
